@@ -25,17 +25,17 @@ ASSUMPTIONS = ["the contract compared against is the millisecond floor of the gi
 
 def plan(tier):
     # evaluations are counted per event written and read back
-    return dict(workers=16, cases=80_000 if tier == "quick" else 3_000_000, time_s=40 if tier == "quick" else 900)
+    return dict(workers=16, cases=250_000 if tier == "quick" else 8_000_000, time_s=40 if tier == "quick" else 900)
 
 
 def gen_case(rng, ctx):
     backend = BACKENDS[(ctx.evaluations + ctx.widx + rng.randrange(3)) % 3]
-    if rng.random() < (0.02 if ctx.tier == "quick" else 0.05):
+    if rng.random() < (0.04 if ctx.tier == "quick" else 0.08):
         n = rng.choice([99, 100, 101, 250, 51, 1000 if ctx.tier == "quick" else 5000])
         evs = []
         for i in range(n):
-            ts = rand_instant(rng)
-            evs.append(dict(ts=ts, off=rand_offset(rng), dur=rand_duration(rng), data={"uid": i}))
+            s = rand_event_spec(rng, depth=1)
+            evs.append(dict(ts=s["ts"], off=s["off"], dur=s["dur"], data={"uid": i}))
         return dict(kind="sweep", backend=backend, events=evs)
     n = rng.randrange(1, 13)
     evs = []
